@@ -1,9 +1,11 @@
 (* C01 — every SELFIES string decodes to a syntactically valid, valence-valid SMILES.
-   (file grows: the graph invariant of the derivation and ring pass is in
-   proofs/DecoderInv.v once proved; see DESIGN.md section 5/C01 for the stages) *)
+   Proved here for ALL strings and ALL accepted tables: the molecular graph the decoder hands to its
+   writer is valence-valid (proofs/DecoderInv.v, proofs/DecoderSum.v).  The step from that graph to the
+   printed string (writer vs. an independent reader) is not a theorem: it is refuted at ring label 100
+   (below) and otherwise judged on every run by the extracted reader on the implementation's output. *)
 From Coq Require Import String List ZArith NArith Bool.
 Import ListNotations.
-From Selfies Require Import Base Generated Atoms Decoder StateFacts Reader DecoderBasics.
+From Selfies Require Import Base Generated Lex Atoms Decoder StateFacts Reader DecoderBasics DecoderInv DecoderSum.
 Local Open Scope string_scope.
 Local Open Scope Z_scope.
 
@@ -52,6 +54,54 @@ Theorem C01_ring_rule_partial : forall rtype state order ns,
   match ns with None => state - order = 0 | Some k => k = state - order /\ 0 < k end.
 Proof. exact nrs_spec. Qed.
 
+
+(* ---------- the valence guarantee at the level of the graph ----------
+   For every table with '?', every string s (digits_ok: see C08), attribute or not: in the graph built by
+   the two passes (derivation + ring formation), every atom is non-aromatic, carries exactly the bonding
+   capacity the table gives its (element, charge) minus its explicit H count, and the orders of ALL bonds
+   at it (those stored at the atom, plus the tree bond stored at its parent) sum to at most that capacity. *)
+Theorem C01_graph_valence_partial : forall T s attribute m,
+  (exists c, assoc (lit "?") T = Some c) -> digits_ok s ->
+  decode_graph T s false attribute = Ok m ->
+  forall i a c at_, nth_error (atoms m) i = Some (a, c, at_) ->
+    a_aromatic a = false /\ bonding_capacity T a = Ok c /\ 0 <= valence m i <= c.
+Proof. intros T s attribute m Hq Hd E. exact (graph_valence T m (decode_graph_ok T s attribute m Hq Hd E)). Qed.
+
+(* ... and the graph is well formed: every bond leads to an existing atom, has order 1, 2 or 3, tree bonds
+   point forward, ring bonds are stored at both ends with the same order, no atom has two bonds to the
+   same neighbour, roots exist *)
+Theorem C01_graph_shape_partial : forall T s attribute m,
+  (exists c, assoc (lit "?") T = Some c) -> digits_ok s ->
+  decode_graph T s false attribute = Ok m ->
+  (forall i e, In e (row m i) -> (b_dst e < natoms m)%nat /\ 1 <= b_order e <= 3 /\ (b_ring e = false -> (i < b_dst e)%nat)) /\
+  (forall i e, In e (row m i) -> b_ring e = true ->
+     exists e', In e' (row m (b_dst e)) /\ b_dst e' = i /\ b_order e' = b_order e /\ b_ring e' = true) /\
+  (forall i, NoDup (map b_dst (row m i))) /\
+  (forall r, In r (roots m) -> (r < natoms m)%nat).
+Proof.
+  intros T s attribute m Hq Hd E. pose proof (decode_graph_ok T s attribute m Hq Hd E) as G.
+  split; [|split; [|split]].
+  - intros i e He. destruct (wf_bonds _ _ _ G i e He) as (A & B & C & _). auto.
+  - exact (si_sym _ (wf_extra _ _ _ G)).
+  - exact (si_nodup _ (wf_extra _ _ _ G)).
+  - exact (wf_roots _ _ _ G).
+Qed.
+
+(* what is returned is what the writer prints from exactly that graph *)
+Theorem C01_output_is_written_graph : forall T s attribute out,
+  decoder T s false attribute = Ok out ->
+  exists m, decode_graph T s false attribute = Ok m /\ mol_to_smiles m = Ok out.
+Proof.
+  intros T s attribute out E. unfold decoder, decoder_c in E. fold (decode_graph T s false attribute) in E.
+  destruct (decode_graph T s false attribute) as [m|]; cbn [bind] in E; [|discriminate]. eauto.
+Qed.
+
+(* non-vacuity: a graph with branches, a ring, a raised bond and a clipped atom *)
+Example C01_graph_example :
+  exists m, decode_graph default_constraints (lit "[C][=C][Branch1][C][=O][C][=C][Ring1][Branch1][F][#N]") false false = Ok m
+            /\ natoms m = 6%nat /\ map (valence m) (seq 0 6) = [3; 4; 1; 3; 4; 1].
+Proof. eexists. split; [vm_compute; reflexivity|]. split; vm_compute; reflexivity. Qed.
+
 (* non-vacuity of the bound: 99 rings are still fine *)
 Theorem C01_ninety_nine_rings :
   exists out, decoder_str default_constraints
@@ -65,3 +115,6 @@ Print Assumptions C01_atom_rule_partial.
 Print Assumptions C01_branch_rule_partial.
 Print Assumptions C01_ring_rule_partial.
 Print Assumptions C01_ninety_nine_rings.
+Print Assumptions C01_graph_valence_partial.
+Print Assumptions C01_graph_shape_partial.
+Print Assumptions C01_output_is_written_graph.
